@@ -114,7 +114,7 @@ func scenSched(r *Run) {
 			s.L.LogfCoarse("%d parked at %s, release at %v", len(group), site, rel)
 			s.At(rel, "release:"+site, func() {
 				for _, p := range group {
-					close(p.ch)
+					s.Release(p)
 				}
 			})
 			i = j
@@ -370,7 +370,7 @@ func scenSched(r *Run) {
 	kcp.VerifYield = nil
 	s.OnDrain = nil
 	for _, p := range s.TakeParked() {
-		close(p.ch)
+		s.Release(p)
 	}
 	s.Settle(time.Hour)
 	mu.Lock()
